@@ -776,6 +776,10 @@ pub mod verif_access {
         pub fn is_empty(&self) -> bool {
             self.0.is_empty()
         }
+        /// True while some thread is inside `pop` (a second `pop` would block).
+        pub fn pop_locked(&self) -> bool {
+            self.0.pop_lock.try_lock().is_err()
+        }
     }
 }
 
